@@ -17,6 +17,7 @@ type SpecFun struct {
 	Body    *Term // nil for declared (uninterpreted) functions
 	Rec     bool
 	Always  bool // always revealed
+	Ground  bool // applications to literal arguments are computed by the generator (tables)
 	File    string
 	ArgS    []*Sort
 	Trusted bool // declared (uninterpreted) — part of the trusted vocabulary
@@ -154,6 +155,14 @@ func (lib *SpecLib) loadCmd(x *SX, file string) error {
 			return fmt.Errorf("%s: body sort %s != %s", name, body.Sort, r)
 		}
 		f.Body = body
+	case "ground-eval":
+		for _, a := range x.List[1:] {
+			f := lib.Funs[a.Atom]
+			if f == nil {
+				return fmt.Errorf("ground-eval: unknown %s", a.Atom)
+			}
+			f.Ground = true
+		}
 	case "always-reveal":
 		for _, a := range x.List[1:] {
 			f := lib.Funs[a.Atom]
@@ -431,4 +440,61 @@ func (f *SpecFun) Instantiate(args []*Term) *Term {
 		m[p] = args[i]
 	}
 	return Subst(f.Body, m)
+}
+
+// groundEval evaluates applications of defined spec functions to ground arguments by unfolding (bounded by fuel).
+func (lib *SpecLib) groundEval(t *Term, fuel *int) *Term {
+	if *fuel <= 0 {
+		return nil
+	}
+	switch t.Op {
+	case "int", "bool", "bvlit", "strlit", "var":
+		return t
+	case "forall", "exists":
+		return nil
+	}
+	if f, ok := lib.Funs[t.Op]; ok && f.Body != nil {
+		args := make([]*Term, len(t.Args))
+		for i, a := range t.Args {
+			args[i] = lib.groundEval(a, fuel)
+			if args[i] == nil {
+				return nil
+			}
+		}
+		*fuel--
+		return lib.groundEval(f.Instantiate(args), fuel)
+	}
+	if t.Op == "ite" {
+		c := lib.groundEval(t.Args[0], fuel)
+		if c == nil {
+			return nil
+		}
+		if c.IsTrue() {
+			return lib.groundEval(t.Args[1], fuel)
+		}
+		if c.IsFalse() {
+			return lib.groundEval(t.Args[2], fuel)
+		}
+	}
+	if len(t.Args) == 0 {
+		return t
+	}
+	args := make([]*Term, len(t.Args))
+	changed := false
+	for i, a := range t.Args {
+		args[i] = lib.groundEval(a, fuel)
+		if args[i] == nil {
+			return nil
+		}
+		if args[i] != a {
+			changed = true
+		}
+	}
+	if !changed {
+		return t
+	}
+	if t.Op == "constarr" {
+		return ConstArr(t.Sort, args[0])
+	}
+	return App(t.Op, t.Sort, args...)
 }
